@@ -154,6 +154,28 @@ class Oracle(reg.Machine):
             pass
         if t in ("macro", "rxn") and op[3] is None:
             return cls, op[-1], None          # name-only look-up
+        try:
+            if t == "macro":
+                ms = [S[e] for e in op[3]]
+                if not ms or any(not isinstance(m, ComplexS) for m in ms):
+                    return None
+                forms = sorted(reg.render(m.canonical_form) for m in ms)
+                name = op[4] if op[4] is not None else sorted(ms, key=lambda m: reg.render(m.canonical_form))[0].name
+                if name not in [m.name for m in ms]:
+                    return None
+                return cls, name, freeze(forms)
+            if t == "rxn":
+                r, p = [S[e] for e in op[3][0]], [S[e] for e in op[3][1]]
+                kinds = {isinstance(m, MacrostateS) for m in r + p}
+                if any(not isinstance(m, (ComplexS, MacrostateS)) for m in r + p) or len(kinds) > 1:
+                    return None
+                key = lambda m: reg.render(m.canonical_form)
+                rs, ps = sorted(r, key=key), sorted(p, key=key)
+                name = op[5] if op[5] is not None else "[{}] {} -> {}".format(
+                    op[4], " + ".join(m.name for m in rs), " + ".join(m.name for m in ps))
+                return cls, name, freeze([[key(m) for m in rs], [key(m) for m in ps], op[4]])
+        except Exception:
+            pass
         return None
 
     # -- one step with all checks --------------------------------------------
@@ -206,6 +228,10 @@ class Oracle(reg.Machine):
                     self.bad("C01", "SingletonError.existing is not an object that was live before the request")
         if req and outcome[0] in ("created", "returned") and res is not None:
             cls, name, canon = req
+            if name and canon is not None and op[0] != "dom" and reg.FAIL[cls] == "none" and \
+                    (oN is not None or oC is not None) and oN is not oC:
+                self.bad("C01", f"a request whose name belongs to {oN!r} and whose canonical form belongs to {oC!r} "
+                                f"was not refused: it {outcome[0]} {res!r}")
             if name is not None and canon is not None:
                 if oN is not None and oN is oC and res is not oN:
                     self.bad("C01", f"request consistent with the live {oN!r} returned another object")
